@@ -382,6 +382,11 @@ impl<const K: usize, const B: usize> Txt<K, B> {
 
     /// Constant prefix "é\n" followed by exactly K symbolic ASCII characters: every byte position is a constant.
     pub(crate) fn ascii_exact() -> Self {
+        Self::ascii_exact_fixed(&[])
+    }
+
+    /// As `ascii_exact`, with constant leading characters (ASCII) of the symbolic part.
+    pub(crate) fn ascii_exact_fixed(fixed: &[char]) -> Self {
         let mut buf = [0u8; B];
         buf[0] = 0xc3;
         buf[1] = 0xa9;
@@ -390,7 +395,7 @@ impl<const K: usize, const B: usize> Txt<K, B> {
         let mut start = [0usize; K];
         let mut i = 0;
         while i < K {
-            let b: u8 = kani::any();
+            let b: u8 = if i < fixed.len() { fixed[i] as u8 } else { kani::any() };
             kani::assume(b < 0x80);
             buf[3 + i] = b;
             ch[i] = b as char;
